@@ -102,6 +102,8 @@ def path_events(n, g, id0):
             try:
                 with core.quiet():
                     f = (s + 3 * t + len(g)) % 4
+                    if (s + t) % 2:          # history: another routing query, from another source, on the same network object
+                        net.shortest_distance((s + 1) % n) if t % 3 else net.shortest_distance((t + 1) % n, s)
                     p = net.shortest_path(arg(net, s, f & 1), arg(net, t, f >> 1))
                 if p is not None:
                     e["has"] = True
